@@ -90,6 +90,7 @@ type batchRun struct {
 	outF   []finding
 	culled map[string]*genCase
 	hang   bool
+	cat    map[string]rpcInfo
 }
 
 func short(s string, n int) string {
@@ -310,39 +311,26 @@ func (b *batchRun) body(bubble bool) {
 	}
 	b.culled = map[string]*genCase{}
 	var executed []*genCase
-	for i, idx := range b.idxs {
-		if b.skip[caseKey(b.u.Mode, b.ri.Name, idx)] {
-			continue
-		}
-		if i > 0 && i%6 == 0 {
-			_ = seedTargets(&gw, w)
-			settle()
-			for _, p := range sent.Drain("panic") {
-				b.outF = append(b.outF, finding{"background-panic", panicClass(p.Attrs), "panic while re-seeding the target swamps: " + short(p.Attrs, 400)})
-			}
-		}
-		gc := buildCase(b.ri, idx, w, c.RandFor(caseKey("case", b.ri.Name, idx)))
-		executed = append(executed, gc)
-		b.culled[strconv.Itoa(gc.Idx)] = gc
-		fmt.Printf("C26REQ %d %s %d %s %s\n", b.ui, b.ri.Name, idx, gc.Style, short(strings.Join(gc.Labels, ";"), 400))
-
-		var o outcome
+	// execute sends one request (the case itself or a follow-up) and decides "returned".
+	execute := func(ri rpcInfo, msgs []proto.Message, wires [][]byte, idx int, gc *genCase, what string) (o outcome, panics []rig.SentinelRecord) {
 		if bubble {
 			ctx, cancel := context.WithCancel(ctxBG)
 			fin := false
 			go func() {
-				o = invokeDirect(ctx, &gw, b.ri, gc.Wires)
+				o = invokeDirect(ctx, &gw, ri, wires)
 				fin = true
 			}()
 			synctest.Wait()
 			blocked := false
-			if !fin && b.ri.ServerStream {
-				// a subscription: make it deliver something, then hang up
+			if !fin && ri.ServerStream {
+				// a subscription: make it deliver something, then hang up, then change data again
 				poke()
 				synctest.Wait()
 				cancel()
 				synctest.Wait()
 				blocked = fin
+				poke()
+				synctest.Wait()
 			}
 			if !fin {
 				time.Sleep(60 * time.Second) // bounded waits inside the engine (30 s close wait, 1 s lock TTL floor …)
@@ -358,7 +346,7 @@ func (b *batchRun) body(bubble bool) {
 					after = "it returned only when the caller gave up (context cancelled)"
 				}
 				if b.count {
-					b.violate("hang", class, "request had not returned at quiescence 60 virtual seconds after it was issued; "+after, gc, stack)
+					b.violate("hang", class, what+" had not returned at quiescence 60 virtual seconds after it was issued; "+after, gc, stack)
 				}
 				if !fin {
 					// the goroutine can never be released: this bubble cannot end
@@ -373,18 +361,62 @@ func (b *batchRun) body(bubble bool) {
 			}
 			cancel()
 			o.Blocked = blocked
-			if lr, ok := o.Resp.(*hydrapb.LockResponse); ok && len(gc.Msgs) > 0 {
-				if q, ok := gc.Msgs[0].(*hydrapb.LockRequest); ok {
-					heldLocks = append(heldLocks, [2]string{q.GetKey(), lr.GetLockID()})
-				}
-			}
 		} else {
-			o = wr.invokeGRPC(b.ri, gc.Msgs, poke)
+			o = wr.invokeGRPC(ri, msgs, poke)
 		}
+		if lr, ok := o.Resp.(*hydrapb.LockResponse); ok && len(msgs) > 0 {
+			if q, ok := msgs[0].(*hydrapb.LockRequest); ok {
+				heldLocks = append(heldLocks, [2]string{q.GetKey(), lr.GetLockID()})
+			}
+		}
+		return o, sent.Drain("panic")
+	}
+	// judge applies the per-request oracle; the signature always carries the batch's RPC
+	judge := func(ri rpcInfo, o outcome, panics []rig.SentinelRecord, gc *genCase, what string) {
+		switch {
+		case o.Timeout:
+			anyTimeout = true
+			if b.count {
+				c.Inconclusive("grpc request exceeded the wall-clock guard: " + ri.Name)
+			}
+		case o.Escaped != "":
+			if b.count {
+				b.violate("crash", normMsg(o.Escaped)+"@"+topFrame(o.EscStack), what+": a panic left the handler; grpc-go does not recover handler panics, the server process dies: "+short(o.Escaped, 200), gc, o.EscStack)
+			}
+		case len(panics) > 0 && o.OK:
+			if b.count {
+				b.violate("nil-nil", panicClass(panics[0].Attrs), fmt.Sprintf("%s: the handler panicked (%s), the recover path reported success: the client gets OK with an empty reply for a request that was abandoned half-way", what, short(attrErr(panics[0].Attrs), 120)), gc, panics[0].Attrs)
+			}
+		case len(panics) > 0:
+			if b.count {
+				c.Count("recovered_panics_reported_as_error", int64(len(panics)))
+			}
+		case o.OK && o.RespNil && ri.Out.Fields().Len() > 0:
+			if b.count {
+				b.violate("nil-nil", "no-panic", what+": the handler returned a nil "+string(ri.Out.Name())+" with a nil error", gc, "")
+			}
+		}
+	}
+
+	for i, idx := range b.idxs {
+		if b.skip[caseKey(b.u.Mode, b.ri.Name, idx)] {
+			continue
+		}
+		if i > 0 && i%6 == 0 {
+			_ = seedTargets(&gw, w)
+			settle()
+			for _, p := range sent.Drain("panic") {
+				b.outF = append(b.outF, finding{"background-panic", panicClass(p.Attrs), "panic while re-seeding the target swamps: " + short(p.Attrs, 400)})
+			}
+		}
+		gc := buildCase(b.ri, idx, w, c.RandFor(caseKey("case", b.ri.Name, idx)))
+		executed = append(executed, gc)
+		b.culled[strconv.Itoa(gc.Idx)] = gc
+		fmt.Printf("C26REQ %d %s %d %s %s\n", b.ui, b.ri.Name, idx, gc.Style, short(strings.Join(gc.Labels, ";"), 400))
+		o, panics := execute(b.ri, gc.Msgs, gc.Wires, idx, gc, "the request")
 		fmt.Printf("C26RET %d %d %s\n", b.ui, idx, o.Code)
 		tc.Record(telemetry.Event{Method: b.ri.Name, Success: o.OK, ErrorCode: o.Code, ErrorMsg: short(o.ErrText, 100), ClientIP: "10.0.0.2"})
 
-		panics := sent.Drain("panic")
 		if b.count {
 			c.Case(caseKey(b.u.Mode, b.ri.Name, idx)+hex.EncodeToString(firstBytes(gc)), gc.Style != "seed")
 			c.Sample(map[string]any{"rpc": gc.RPC, "mode": b.u.Mode, "style": gc.Style, "labels": gc.Labels, "bytes": gc.Bytes, "outcome": o.Code})
@@ -407,28 +439,52 @@ func (b *batchRun) body(bubble bool) {
 				}
 			}
 		}
-		switch {
-		case o.Timeout:
-			anyTimeout = true
-			if b.count {
-				c.Inconclusive("grpc request exceeded the wall-clock guard: " + b.ri.Name)
+		judge(b.ri, o, panics, gc, "the request")
+
+		// what the request configured is now used: valid requests that exercise it. The process
+		// may die here (a panic in an engine goroutine): the marker below attributes it.
+		if fus := followUps(b.ri, gc, o, w, idx); len(fus) > 0 && !o.Timeout {
+			fmt.Printf("C26REQ %d %s %d %s followed-by-%s;%s\n", b.ui, b.ri.Name, idx, gc.Style, fus[0].Name, short(strings.Join(gc.Labels, ";"), 300))
+			for _, fu := range fus {
+				if fu.Sleep > 0 {
+					if bubble {
+						time.Sleep(fu.Sleep)
+						synctest.Wait()
+					}
+					continue
+				}
+				fri, ok := b.cat[fu.RPC]
+				if !ok {
+					continue
+				}
+				wb, err := proto.Marshal(fu.Msg)
+				if err != nil {
+					continue
+				}
+				what := "valid follow-up " + fu.Name
+				fo, fp := execute(fri, []proto.Message{fu.Msg}, [][]byte{wb}, idx, gc, what)
+				if b.count {
+					c.Count("follow_up_requests", 1)
+					c.Seen("follow_up_kinds", fu.Name)
+					c.Count("recovered_panics", int64(len(fp)))
+				}
+				judge(fri, fo, fp, gc, what)
+				if fu.After != nil {
+					if more := fu.After(fo); more != nil {
+						wb2, _ := proto.Marshal(more.Msg)
+						if mri, ok := b.cat[more.RPC]; ok {
+							mo, mpn := execute(mri, []proto.Message{more.Msg}, [][]byte{wb2}, idx, gc, "valid follow-up "+more.Name)
+							judge(mri, mo, mpn, gc, "valid follow-up "+more.Name)
+							if b.count {
+								c.Count("follow_up_requests", 1)
+								c.Seen("follow_up_kinds", more.Name)
+							}
+						}
+					}
+				}
 			}
-		case o.Escaped != "":
-			if b.count {
-				b.violate("crash", normMsg(o.Escaped)+"@"+topFrame(o.EscStack), "a panic left the handler; grpc-go does not recover handler panics, the server process dies: "+short(o.Escaped, 200), gc, o.EscStack)
-			}
-		case len(panics) > 0 && o.OK:
-			if b.count {
-				b.violate("nil-nil", panicClass(panics[0].Attrs), fmt.Sprintf("the handler panicked (%s), the recover path reported success: the client gets OK with an empty reply for a request that was abandoned half-way", short(attrErr(panics[0].Attrs), 120)), gc, panics[0].Attrs)
-			}
-		case len(panics) > 0:
-			if b.count {
-				c.Count("recovered_panics_reported_as_error", int64(len(panics)))
-			}
-		case o.OK && o.RespNil && b.ri.Out.Fields().Len() > 0:
-			if b.count {
-				b.violate("nil-nil", "no-panic", "the handler returned a nil "+string(b.ri.Out.Name())+" with a nil error", gc, "")
-			}
+			settle()
+			fmt.Printf("C26RET %d %d follow-ups\n", b.ui, idx)
 		}
 	}
 
@@ -483,6 +539,16 @@ func (b *batchRun) body(bubble bool) {
 	for _, e := range sent.Drain() {
 		if b.count && (strings.Contains(e.Msg, "cannot write entry") || strings.Contains(e.Msg, "cannot encode treasure")) {
 			c.Count("write_errors_logged", 1)
+		}
+	}
+
+	// an idle period in virtual time: write tickers, idle eviction and TTL watchdogs run with
+	// whatever settings the batch's requests left behind
+	if bubble {
+		time.Sleep(12 * time.Second)
+		synctest.Wait()
+		for _, p := range sent.Drain("panic") {
+			b.outF = append(b.outF, finding{"background-panic", panicClass(p.Attrs), "a goroutine of the engine panicked while the server was idle after the batch: " + short(p.Attrs, 400)})
 		}
 	}
 
@@ -606,6 +672,8 @@ func (b *batchRun) report(executed []*genCase) {
 	b.outF = nil
 }
 
+var theCat map[string]rpcInfo
+
 // ---- child ---------------------------------------------------------------------------------
 
 func runUnit(c *rig.Check, t *testing.T, ri rpcInfo, u unit, ui int, skip map[string]bool, upTo int) {
@@ -621,7 +689,7 @@ func runUnit(c *rig.Check, t *testing.T, ri rpcInfo, u unit, ui int, skip map[st
 			break
 		}
 	}
-	b := &batchRun{c: c, t: t, ri: ri, u: u, ui: ui, idxs: idxs, skip: skip, count: true}
+	b := &batchRun{c: c, t: t, ri: ri, u: u, ui: ui, idxs: idxs, skip: skip, count: true, cat: theCat}
 	b.run()
 	if len(b.outF) == 0 {
 		return
@@ -639,7 +707,7 @@ func runUnit(c *rig.Check, t *testing.T, ri rpcInfo, u unit, ui int, skip map[st
 		}
 	}
 	probe := func(sub []int) *batchRun {
-		s := &batchRun{c: c, t: t, ri: ri, u: u, ui: ui, idxs: sub, skip: skip, count: false}
+		s := &batchRun{c: c, t: t, ri: ri, u: u, ui: ui, idxs: sub, skip: skip, count: false, cat: theCat}
 		s.run()
 		c.Count("bisect_reruns", 1)
 		return s
@@ -811,11 +879,13 @@ func TestCheck(t *testing.T) {
 	for _, ri := range list {
 		cat[ri.Name] = ri
 	}
+	theCat = cat
+	sweepPerMode, sweepGrpcOffset = c.N(6, 150), c.N(6, 0)
 	if c.IsChild() {
 		runChild(c, t, cat)
 		return
 	}
-	c.Rule = "per RPC of HydraideService_ServiceDesc: a valid request that reaches the engine, damaged in 1-3 fields (boundary / malformed value of that field's kind: swamp names with 0,1,2,4 parts and empty parts, empty/absent/duplicated/huge lists, absent and empty sub-messages, out-of-range enums, min/max/negative numbers, NaN/Inf, 65 535..70 000-byte keys, invalid and hostile msgpack, out-of-range timestamps), or a request filled field by field from the same pools, or no request message at all on a client stream; half run through the generated grpc handlers in a synctest bubble, half over grpc/bufconn; non-trivial = not the undamaged valid request; distinct = distinct (mode, RPC, request bytes)"
+	c.Rule = "per RPC of HydraideService_ServiceDesc: a valid request that reaches the engine, damaged in 1-3 fields (boundary / malformed value of that field's kind: swamp names with 0,1,2,4 parts and empty parts, empty/absent/duplicated/huge lists, absent and empty sub-messages, out-of-range enums, min/max/negative numbers, NaN/Inf, 65 535..70 000-byte keys, invalid and hostile msgpack, out-of-range timestamps), or a request filled field by field from the same pools, or no request message at all on a client stream; the first cases of every unit are a deterministic sweep (each numeric/enum field of the valid request x the boundary values of its kind, most extreme first); every accepted RegisterSwamp/DeRegisterSwamp is followed by valid Set/Get/idle/Set/Get/Delete/Count on a swamp its pattern covers, every granted Lock by Heartbeat/Unlock/Lock-again/Unlock, every subscription by data changes before and after the hang-up, every batch by 12 virtual idle seconds, shutdown and reload, all under the same oracles (a death of the process is attributed to the sequence); half run through the generated grpc handlers in a synctest bubble, half over grpc/bufconn; non-trivial = not the undamaged valid request; distinct = distinct (mode, RPC, request bytes)"
 	c.Assumptions = []string{
 		"a request is what the server can receive: every generated message is marshalled and unmarshalled first (nil list elements, invalid UTF-8 and other states that cannot cross the wire are not generated)",
 		"a recovered handler panic is a violation only when the client is told OK (the recover path returns nil, nil, which grpc delivers as an empty successful reply); recovered panics that surface as an error status are counted, not reported",
